@@ -227,10 +227,24 @@ CLAIMED["C17"] = dict(
     note="Trusted: clang, AST export, sympy polynomial arithmetic, the standard model of IEEE-754 rounding, boost::multiprecision "
          "below its capacity. Lifting argument in DESIGN.md C17.")
 
+CLAIMED["C18"] = dict(
+    level="other", design="3/C18",
+    technique="static analysis: interval abstract interpretation (outward rounded, monotone exp / pow) of every charge-transfer formula over "
+              "its clamped range; sign x monotonicity abstract domain on the recombination and photoionization fit expressions; "
+              "table exhaustiveness (call-site constants vs. switch labels); must-pass-through rule for the final clamp and the "
+              "threshold guard",
+    text="Decides the clauses of C18 that do not depend on the values in the shipped data tables, for all temperatures / energies at once: "
+         "every charge-transfer rate is finite and non-negative (39 arms, enclosures reported) and every reaction the ionization balance "
+         "asks for has a non-aborting arm; every recombination rate is returned through max(0, .); the hydrogen and helium recombination "
+         "fits are strictly positive and strictly decreasing for T > 0; photoionization cross sections are 0 below the threshold (tested "
+         "first) and otherwise a product of non-negative factors, given non-negative table entries. NOT decided: equality with the "
+         "published fits evaluated on the shipped tables, strict positivity of the metal rates up to 1e5 K, finiteness where table entries "
+         "enter a denominator, and the frequency samplers.",
+    note="Trusted: clang, AST export, libm exp/pow within 2 ulp for the enclosures. Assumes non-negative Verner table entries.")
+
 NOT_APPLICABLE = {
     "C15": "Validity of a Voronoi tessellation and agreement of two constructions quantify over real generator sets; correctness rests on geometric predicates and flip sequences whose outcomes are runtime values; no clause has its truth in the shape of the code.",
     "C16": "Unique containment, volume sums, mutual neighbours after arbitrary refinement histories, path conservation and nearest-neighbour exactness are numeric/geometric statements over runtime trees and point sets; no table or pairing clause carries them.",
-    "C18": "Cross sections, rates and sampled frequencies are fitted formulae evaluated on shipped data tables; sign, threshold and monotonicity depend on the data values, not on code shape.",
 }
 
 PENDING = "check not built yet (DESIGN.md section 6 build order); not claimed until it is"
